@@ -20,7 +20,7 @@ RULE = ('operators (+ - * / ** neg ==, reflected with plain numbers), value(unit
         'distinct by (operation, operand kinds and units, follow-up steps)')
 SHARDS = {'quick': 16, 'thorough': 16}
 MIN_NONTRIVIAL = {'quick': 2500, 'thorough': 60000}
-REQUIRED_CLASSES = ['kind:same-dimension-units-in-one-expression', 'reflected-numpy', 'neutral-element-operand', 'op:+', 'op:-', 'op:*', 'op:/', 'op:==', 'op:pow', 'op:neg', 'op:getitem', 'op:value', 'op:ufunc', 'op:func', 'op:builtin-sum', 'followup:toq', 'op:value-with-dtype', 'op:value-level-in-linear-unit', 'op:pow-fraction-object',
+REQUIRED_CLASSES = ['kind:same-dimension-units-in-one-expression', 'reflected-numpy', 'neutral-element-operand', 'op:+', 'op:-', 'op:*', 'op:/', 'op:==', 'op:pow', 'op:neg', 'op:getitem', 'op:value', 'op:ufunc', 'op:func', 'op:builtin-sum', 'both-operands-one-object', 'followup:toq', 'op:value-with-dtype', 'op:value-level-in-linear-unit', 'op:pow-fraction-object',
                     'reflected', 'kind:same-unit', 'kind:other-unit', 'kind:reciprocal', 'kind:nodim', 'kind:log', 'kind:temp',
                     'kind:decimal', 'kind:array', 'kind:uncertain', 'followup:to', 'followup:rebase', 'followup:abse', 'followup:rele',
                     'followup:write', 'followup-on-result', 'followup-on-operand', 'twin-probe', 'repo-tests-under-contracts']
@@ -196,7 +196,7 @@ def cases(rng, tier, shard, nshards, ctx):
             else:
                 step = ['write', 0, 99.5]
             fus.append([tgt, step])
-        yield dict(t='op', a=a, b=b, kind=kind, op=op, fus=fus)
+        yield dict(t='op', a=a, b=b, kind=kind, op=op, fus=fus, self=rng.random() < 0.08)
 
 
 # ------------------------------------------------------------------ execution
@@ -277,8 +277,14 @@ def _run(case, ctx):
     if (b_spec['v'] in (0.0, 1.0) or b_spec['v'] == [1.0, 1.0, 1.0]) or (op['k'] == 'bin' and op['side'] != 'QQ' and op['num'] in (0, 1)):
         classes.append('neutral-element-operand')
     devs, mon = [], {}
+    selfop = bool(case.get('self')) and op['k'] in ('bin', 'eq') and op.get('side') == 'QQ'
+    if selfop:
+        b_spec = dict(a_spec)
+        classes.append('both-operands-one-object')
     try:
         A, B = build(ctx, a_spec), build(ctx, b_spec)
+        if selfop:
+            B = A               # x + x, x * x, x == x: ONE object on both sides; it must read afterwards as it did before
         A2, B2 = build(ctx, a_spec), build(ctx, b_spec)       # twins, never take part
     except Exception as e:
         return outcome(skip='operand-not-constructible:' + type(e).__name__)
